@@ -225,3 +225,97 @@ func vpH_C02_ProcessTransactions() {
 		}
 	}
 }
+
+// ---- publisher (arbitrating) mode: what is stored is the filtered block --------
+
+type vpArbStore struct {
+	vpTxStore
+	genesis *coin.SignedBlock
+	added   []*coin.SignedBlock
+}
+
+func (s *vpArbStore) Len(tx *dbutil.Tx) (uint64, error) { return 5, nil }
+func (s *vpArbStore) GetGenesisBlock(tx *dbutil.Tx) (*coin.SignedBlock, error) {
+	return s.genesis, nil
+}
+func (s *vpArbStore) AddBlock(tx *dbutil.Tx, b *coin.SignedBlock) error {
+	cp := *b
+	s.added = append(s.added, &cp)
+	return nil
+}
+
+type vpArbPool struct {
+	vpUtxoPool
+	uxHash cipher.SHA256
+}
+
+var vpArbPoolCur *vpArbPool
+
+func (s *vpArbStore) UnspentPool() blockdb.UnspentPooler { return vpArbPoolCur }
+
+func (p *vpArbPool) GetUxHash(tx *dbutil.Tx) (cipher.SHA256, error) { return p.uxHash, nil }
+
+//vp:prop C01 C02 C04
+//vp:bounds publisher (arbitrating) mode: a header-valid block of 2 transactions (1 input each, drawn from 3 output ids that are unspent or not, free) with free per-transaction rule verdicts
+//vp:assume as vpH_C02_ProcessTransactions; block and transaction hashes uninterpreted
+//vp:rule github.com/skycoin/skycoin/src/transaction.VerifyBlockTxnConstraints model:vpModelVerifyBlockTxn
+//vp:rule github.com/skycoin/skycoin/src/coin.SortTransactions model:vpModelSortIdentity
+//vp:noreplay stores are fakes
+//vp:unwind 40
+func vpH_C02_ExecuteBlockArbitrating() {
+	pool := &vpArbPool{}
+	for i := range pool.ids {
+		pool.ids[i][0] = byte(i + 1)
+		pool.present[i] = vpBool("unspent")
+	}
+	pool.uxHash[0] = 0x33
+	head := &coin.SignedBlock{}
+	head.Head.Time = 100
+	head.Head.BkSeq = 5
+	store := &vpArbStore{genesis: &coin.SignedBlock{}}
+	store.head, store.pool = head, &pool.vpUtxoPool
+	store.genesis.Head.Time = 1
+	bc := &Blockchain{store: store, cfg: BlockchainConfig{Arbitrating: true}}
+	// UnspentPool must answer GetUxHash as well
+	store.vpTxStore.pool = &pool.vpUtxoPool
+	vpArbPoolCur = pool
+
+	var sb coin.SignedBlock
+	sb.Body.Transactions = make(coin.Transactions, 2)
+	inIdx := [2]int{}
+	for i := range sb.Body.Transactions {
+		t := &sb.Body.Transactions[i]
+		inIdx[i] = vpLen("input", 0, 2)
+		t.In = []cipher.SHA256{pool.ids[inIdx[i]]}
+		t.Sigs = make([]cipher.Sig, 1)
+		t.Out = []coin.TransactionOutput{{Coins: 1000, Hours: uint64(i + 1)}}
+		vpTxnMarks[i] = uint64(i + 1)
+		vpTxnInvalid[i] = vpBool("violatesHardRule")
+		for x := range pool.ids {
+			vpAssume(t.Out[0].UxID(t.Hash()) != pool.ids[x])
+		}
+	}
+	sb.Head.BkSeq = 6
+	sb.Head.Time = 200
+	sb.Head.PrevHash = head.HashHeader()
+	sb.Head.BodyHash = sb.Body.Hash()
+	sb.Head.UxHash = pool.uxHash
+
+	err := bc.ExecuteBlock(nil, &sb)
+	if err != nil {
+		vpReach("refused")
+		return
+	}
+	vpReach("stored")
+	vpAssert(len(store.added) == 1, "stored_once")
+	var used [3]int
+	for _, t := range store.added[0].Body.Transactions {
+		i := int(t.Out[0].Hours) - 1
+		vpAssert(!vpTxnInvalid[i], "stored_block_contains_no_rule_violating_transaction")
+		vpAssert(pool.present[inIdx[i]], "stored_block_spends_only_unspent_outputs")
+		used[inIdx[i]]++
+	}
+	for x := range used {
+		vpAssert(used[x] <= 1, "stored_block_spends_no_output_twice")
+	}
+}
